@@ -300,7 +300,7 @@ func (c *Chip) doGeneralAuthenticate(cmd *Command, chaining bool) result {
 			if err != nil {
 				panic(err)
 			}
-			c.sm = sess
+			c.setSM(sess)
 			c.access = true
 			c.paceDone = true
 			c.truth.PaceCompleted = true
